@@ -36,6 +36,7 @@ type mutation struct {
 	Body    []byte
 	CT      string
 	Chunked bool // sent without Content-Length (Transfer-Encoding: chunked), as a streaming peer or proxy does
+	Short   int  // >0: the peer declares Content-Length len(Body)+Short, sends Body and closes its sending side
 }
 
 // leafPaths lists paths to every leaf (and container) of a JSON tree.
@@ -182,6 +183,13 @@ func mutations(valid []byte, wireBody []byte, thorough bool) []mutation {
 			m.Class == "proto-valid", m.Class == "proto-garbage", m.Class == "proto-truncated", m.Class == "proto-json-body", m.Class == "json-no-content-type",
 			thorough && (strings.HasPrefix(m.Class, "leaf-replaced-by-") || m.Class == "truncated") && i%4 == 0:
 			out = append(out, mutation{Class: m.Class + "/chunked", Body: m.Body, CT: m.CT, Chunked: true})
+		}
+	}
+	// an upload that is cut short: the declared length is never reached although what did arrive is a
+	// complete document (so only the read error tells); no request may be dispatched from it
+	for i := 0; i < n; i++ {
+		if m := out[i]; m.Class == "valid" || m.Class == "proto-valid" || m.Class == "whitespace" {
+			out = append(out, mutation{Class: m.Class + "/cut-short-of-declared-length", Body: m.Body, CT: m.CT, Short: 7})
 		}
 	}
 	return out
@@ -386,7 +394,43 @@ func c11(c *Ctx) {
 			if mu.Chunked {
 				send = rawHTTPChunked
 			}
-			resp, err := send("POST", gs.URL, u.FP.Path["top"], hdr, mu.Body)
+			var resp *rawResp
+			var err error
+			if mu.Short == 0 {
+				resp, err = send("POST", gs.URL, u.FP.Path["top"], hdr, mu.Body)
+			} else {
+				resp, err = rawHTTPShort("POST", gs.URL, u.FP.Path["top"], hdr, mu.Body, mu.Short)
+				if err == nil {
+					evs, serr := syncEvents(ch)
+					c.R.Eval(1)
+					rp := map[string]any{"proto": protoText, "mutation": mu.Class, "content_type": mu.CT, "declared_length": len(mu.Body) + mu.Short, "sent": len(mu.Body), "body": string(mu.Body[:min(len(mu.Body), 300)])}
+					if serr != nil {
+						c.R.Violate(caseID, "server-process-died", firstLines(ch.Stderr(), 1), rp)
+						return
+					}
+					if os.Getenv("VERIF_DEBUG_SHORT") != "" {
+						st := -1
+						if resp != nil {
+							st = resp.Status
+						}
+						fmt.Printf("DEBUG short %s ct=%s status=%d events=%v\n", caseID, mu.CT, st, evs)
+					}
+					for _, e := range evs {
+						switch e.Str("ev") {
+						case "handler":
+							c.R.Violate(caseID, "dispatched-undecodable-body", "cut-short", rp)
+						case "panic":
+							c.R.Violate(caseID, "panic", e.Str("value"), rp)
+						}
+					}
+					if resp != nil && resp.Status != 400 {
+						rp["status"] = resp.Status
+						c.R.Violate(caseID, "status", fmt.Sprintf("st%d", resp.Status), rp)
+					}
+					c.R.Decided(caseID)
+					continue
+				}
+			}
 			c.R.Eval(1)
 			bodyShown := string(mu.Body)
 			if len(bodyShown) > 600 {
